@@ -26,6 +26,7 @@ var fileInputPkgs = map[string]bool{"cisco": true, "linux": true, "nsx": true, "
 	"status": true, "cmd/missing-approve": true, "device": true, "asa": true, "ios": true, "errlog": true, "deviceconf": true}
 
 func checkC20(p *Prog, r *Report) {
+	ruleIndexCalls(p, r)
 	rulePanicAudit(p, r)
 	ruleBounds(p, r)
 	ruleGoroutineAborts(p, r)
